@@ -14,6 +14,7 @@ import numpy as np
 from mc import common
 from mc.engine import hist
 from mc.refmodel import geom
+from mc.refmodel import pipeline as pl
 
 FACTORY = "mc.checks.c08.System"
 
@@ -49,7 +50,13 @@ OPS = [
     ("read_derived", None),
     ("scale", 2.0),
     ("reduce", (0, 2, 3)),
+    # repeated indices are legitimate (rpe() reduces to [0] + pair end ids,
+    # which repeat in all-pairs mode): list entries then share one matrix
+    ("reduce", (0, 0, 2, 3)),
     ("downsample", 2),
+    ("downsample", 12),
+    ("downsample", 14),
+    ("split_probe", None),
     ("motion_filter", (1.5, 50.0)),
     ("crop", (0.5, 1.0)),
     ("align", (False, -1)), ("align", (True, -1)), ("align", (False, 3)),
@@ -60,8 +67,16 @@ OPS = [
 ]
 
 
+def _ref_poses(n):
+    Rs = list(REF_R) + [REF_R[k % 4] for k in range(4, n)]
+    ps = list(REF_P) + [np.array([-3.0 - k, 3.0 + (k % 3), 8.0 + 2 * k])
+                        for k in range(4, n)]
+    return Rs[:n], ps[:n]
+
+
 def _ref(n):
-    return common.make_traj(REF_R[:n], REF_P[:n], None, "se3")
+    Rs, ps = _ref_poses(n)
+    return common.make_traj(Rs, ps, None, "se3")
 
 
 def _norm(a):
@@ -83,6 +98,11 @@ class System(object):
             return  # an empty trajectory is terminal
         for k, (name, _) in enumerate(OPS):
             if name == "crop" and st.stamps is None:
+                continue
+            if name == "reduce" and len(set(_)) != len(_) and \
+                    st.stamps is not None:
+                # repeated indices duplicate timestamps: only meaningful for
+                # paths without timestamps
                 continue
             yield k
 
@@ -213,6 +233,31 @@ class System(object):
                         for M, R, p in zip(val, Rs, ps)):
                     msgs.append("poses_se3 read differs from the model")
                 new = (Rs, ps, ts)
+            elif name == "split_probe":
+                # splitting reads the (possibly cached) derived quantities of
+                # the live object; the parts must partition the *current*
+                # poses exactly at the steps exceeding the threshold
+                steps = [float(np.linalg.norm(ps[k + 1] - ps[k]))
+                         for k in range(n - 1)]
+                thr = 1.5
+                parts = list(o.split_distance_gaps(thr))
+                exp_cuts = [k for k in range(n - 1) if steps[k] > thr]
+                sizes = [p_.num_poses for p_ in parts]
+                exp_sizes = [b - a for a, b in zip(
+                    [0] + [k + 1 for k in exp_cuts],
+                    [k + 1 for k in exp_cuts] + [n])]
+                if check and sizes != exp_sizes:
+                    msgs.append("split_distance_gaps(%g) gives parts of sizes "
+                                "%s, the current poses have gaps after %s" %
+                                (thr, sizes, exp_cuts))
+                if ts is not None and n >= 2:
+                    tparts = list(o.split_time_gaps(0.75))
+                    tcuts = [k for k in range(n - 1)
+                             if ts[k + 1] - ts[k] > 0.75]
+                    if check and len(tparts) != len(tcuts) + 1:
+                        msgs.append("split_time_gaps disagrees with the "
+                                    "current timestamps")
+                new = (Rs, ps, ts)
             elif name == "read_derived":
                 # derived quantities read on the live object (a cache behind
                 # them would be populated here and must be refreshed later)
@@ -265,7 +310,7 @@ class System(object):
                 if n <= arg:
                     ids = list(range(n))
                 else:
-                    ids = [k * (n - 1) // (arg - 1) for k in range(arg)]
+                    ids = pl.downsample_ids(n, arg)
                 new = ([Rs[i] for i in ids], [ps[i] for i in ids],
                        None if ts is None else [ts[i] for i in ids])
             elif name == "motion_filter":
@@ -290,7 +335,7 @@ class System(object):
                     with_scale, m, only = True, -1, True
                 mm = n if m == -1 else min(m, n)
                 x = np.array(ps[:mm]).T
-                y = np.array(REF_P[:mm]).T
+                y = np.array(_ref_poses(n)[1][:mm]).T
                 rank = geom.cross_cov_rank_safe(x, y) if mm >= 1 else 0
                 may_refuse = rank < 2
                 r, t, c = o.align(ref, correct_scale=with_scale and not only,
@@ -315,7 +360,7 @@ class System(object):
                 ref = _ref(n)
                 T = o.align_origin(ref)
                 P0 = geom.pose(Rs[0], ps[0])
-                Te = geom.pose(REF_R[0], REF_P[0]) @ geom.pose_inv(P0)
+                Te = geom.pose(REF_R[0], REF_P[0]) @ geom.pose_inv(P0)  # pose 0
                 if check and not common.close(T, Te, 10):
                     msgs.append("align_origin returned a wrong transformation")
                 new = ([Te[:3, :3] @ R for R in Rs],
@@ -377,6 +422,22 @@ class System(object):
         return st, msgs, label
 
 
+class SystemLarge(System):
+    """the same alphabet on 16-pose objects (size-dependent index arithmetic,
+    e.g. in down-sampling, is invisible on 4 poses)"""
+    n_inits = 2
+    N = 16
+
+    def initial(self, i):
+        rot = geom.rot24()
+        Rs = [rot[(5 * k + 3) % 24] for k in range(self.N)]
+        ps = [np.array([float(k), float((k * k) % 7), float((3 * k) % 5)])
+              for k in range(self.N)]
+        ts = [0.5 * k + (0.5 if k > 9 else 0.0) for k in range(self.N)]
+        mode = "se3" if i % 2 == 0 else "quat"
+        return State(common.make_traj(Rs, ps, ts, mode), Rs, ps, ts)
+
+
 def model_motion_filter(Rs, ps, d, a):
     ids = [0]
     last = 0
@@ -394,11 +455,18 @@ def model_motion_filter(Rs, ps, d, a):
 def run(ctx):
     depth = ctx.pick(4, 5)
     acc = hist.bfs(ctx, FACTORY, depth)
+    big = hist.bfs(ctx, "mc.checks.c08.SystemLarge", ctx.pick(2, 3))
+    st = acc.counters["states"] + big.counters["states"]
+    acc.merge(big)
+    acc.counters["states"] = st
+    acc.bounds["max_depth_completed"] = depth
+    acc.bounds["max_depth_completed_16_poses"] = ctx.pick(2, 3)
     acc.counters["evaluations"] = acc.counters["transitions"]
     acc.rule = (
         "BFS over all histories of depth <= %d over %d operations (%s) from "
         "4 initial objects {PosePath3D, PoseTrajectory3D} x {matrices, "
-        "positions+quaternions}; states de-duplicated by (class, which "
+        "positions+quaternions} with 4 poses, and to depth 2 (3) from two "
+        "16-pose trajectories; states de-duplicated by (class, which "
         "cached views exist, projected flag, pose content rounded to 1e-9, "
         "timestamps); after every transition all views, check() and derived "
         "quantities are compared with the lock-step model. non-trivial = "
@@ -418,4 +486,5 @@ def run(ctx):
 
 
 def replay(part, case):
-    return hist.replay_history(FACTORY, case["init"], case["ops"])
+    return hist.replay_history(case.get("factory", FACTORY), case["init"],
+                               case["ops"])
